@@ -148,6 +148,17 @@ S["child_roles"] = dict(until=4, sims=[T("A"), E("Q", init_event=1, emit=[0, Non
                                        H("B", child=True)],
                         conns=[dict(C("A", "B", "po", "ti"), deid="k"),
                                dict(C("Q", "B", "eo", "mi"), deid="k")])
+# the child entity (model K: `eo` persistent, `po` an event) as a SOURCE: its event output
+# triggers B sparsely, its persistent output feeds a time-based consumer
+S["child_source"] = dict(until=5, sims=[H("A", child=True, next_default=2, emit=[0, None, 0]),
+                                        H("B", next_default=1), T("Cc")],
+                         conns=[dict(C("A", "B", "po", "ti"), seid="k"),
+                                dict(C("A", "Cc", "eo", "mi"), seid="k")])
+S["child_source_shift"] = dict(until=5, sims=[H("A", child=True, next_default=2, emit=[0, None, 0]),
+                                              H("B", next_default=1), T("Cc")],
+                               conns=[dict(C("A", "B", "po", "ti", shift=1), seid="k"),
+                                      dict(C("A", "Cc", "eo", "mi", shift=1, init=True), seid="k"),
+                                      C("A", "Cc", "po", "mi")])
 # a persistent and an event source into ONE trigger attribute of one entity
 S["hyb_mixed_same_attr"] = dict(until=3, sims=[T("A"), E("Q", init_event=0, emit=[0]),
                                                H("B", next_default=1)],
